@@ -26,6 +26,25 @@ echo "== existing tests of touched packages with patch: $PKGS" >> $LOG
 EXTRA=""
 case "$PKGS" in *agent/consul/state*) EXTRA="./agent/consul/fsm/";; esac
 go test -count=1 -p 4 $PKGS $EXTRA >> $LOG 2>&1; C=$?
+if [ $C -ne 0 ] && grep -q '^panic: ' $LOG && ! grep -qE '^--- FAIL: ' $LOG; then
+  # a panic in one test takes the whole test binary down and hides every other result: name the test from the
+  # trace, run the package again without it, and run it alone with and without the patch
+  PAN=$(grep -oE '\.(Test[A-Za-z0-9_]+)(\.func[0-9.]*)?\(' $LOG | grep -oE 'Test[A-Za-z0-9_]+' | grep -v VerifSeed | sort -u | paste -sd'|')
+  FAILPK=$(grep -E '^FAIL\s+github.com' $LOG | awk '{print $2}' | sed 's#github.com/hashicorp/consul#.#' | sort -u)
+  if [ -n "$PAN" ] && [ -n "$FAILPK" ]; then
+    echo "== a panic in $PAN ended the test binary; package again without it" >> $LOG
+    go test -count=1 -p 4 -skip "^($PAN)\$" $FAILPK >> $LOG 2>&1; C=$?
+    echo "== $PAN alone, with the patch, 5 runs" >> $LOG
+    go test -count=5 -p 1 -run "^($PAN)\$" $FAILPK >> $LOG 2>&1; P1=$?
+    if [ $P1 -ne 0 ]; then
+      git diff > /tmp/confirm-$ID.diff; git checkout -q -- .; echo "== $PAN alone, without the patch, 20 runs" >> $LOG
+      go test -count=20 -p 1 -run "^($PAN)\$" $FAILPK >> $LOG 2>&1; P0=$?
+      git apply /tmp/confirm-$ID.diff; rm -f /tmp/confirm-$ID.diff
+      echo "== without patch exit=$P0" >> $LOG
+      [ $P0 -eq 0 ] && C=1
+    fi
+  fi
+fi
 if [ $C -ne 0 ]; then
   # timing-sensitive tests of the big packages fail under load: rerun only the failed top-level tests, alone
   NAMES=$(grep -E '^--- FAIL: ' $LOG | awk '{print $3}' | grep -v VerifSeed | sort -u | paste -sd'|')
